@@ -156,6 +156,140 @@ def r20_3(ctx, counts) -> RuleResult:
     return res
 
 
+def r20_4(ctx, counts) -> RuleResult:
+    """the class of a prototype, called with text, must be the lexical constructor"""
+    from ..engine.srcmodel import walk_local
+    model: Model = ctx.model
+    res = RuleResult(
+        'R20.4', 'PROTOTYPE-CLASS-IS-LEXICAL-CONSTRUCTOR',
+        'decode() builds the typed value as `value.__class__(text)`. That is the XSD lexical '
+        'mapping for the datatype classes of elementpath.datatypes and, up to lexical-space '
+        'details, for int, float, Decimal and str — but not for bool: bool("false") and bool("0") '
+        'are True. For every builtin Python class that occurs as the class of a prototype in '
+        '_ATOMIC_VALUES and whose call on text is not a lexical mapping (bool), the decode '
+        'function inside get_atomic_sequence has an isinstance(value, <that class>) branch that '
+        'returns through a datatype class (BooleanProxy) before the generic '
+        '`value.__class__(s)`.')
+    mod, tabs, _lists = tables(model)
+    builtin_classes: set[str] = set()
+    for _v, tab in tabs.items():
+        for _name, expr in tab.items():
+            pc = prototype_class(model, mod, expr)
+            if pc is not None and pc[0] == 'builtin':
+                builtin_classes.add(pc[1])
+    non_lexical = sorted(builtin_classes & {'bool'})
+    res.instances.append(f'builtin prototype classes: {sorted(builtin_classes)}; not lexical '
+                         f'constructors: {non_lexical}')
+    gas = mod.toplevel_function('get_atomic_sequence')
+    if gas is None:
+        raise AnalysisError('decoder.get_atomic_sequence vanished')
+    decode = [g for g in mod.functions.values() if g.parent is gas and g.name == 'decode']
+    if not decode:
+        raise AnalysisError('get_atomic_sequence.decode vanished')
+    d = decode[0]
+    generic = [c for c in walk_local(d.node) if isinstance(c, ast.Call)
+               and isinstance(c.func, ast.Attribute) and c.func.attr == '__class__']
+    if not generic:
+        raise AnalysisError(f'{d.key}: the generic value.__class__(text) call was not located')
+    n = 0
+    for cls_name in non_lexical:
+        n += 1
+        branches = [st for st in walk_local(d.node) if isinstance(st, ast.If)
+                    and any(isinstance(t, ast.Call) and dotted(t.func) == 'isinstance'
+                            and len(t.args) == 2 and cls_name in stmt_text(t.args[1])
+                            for t in ast.walk(st.test))
+                    and st.lineno < min(g.lineno for g in generic)]
+        ok = any(any(isinstance(r, ast.Return) and isinstance(r.value, ast.Call)
+                     and '__class__' not in stmt_text(r.value) for r in ast.walk(b))
+                 for b in branches)
+        res.instances.append(f'{d.key}: prototypes of class {cls_name} are decoded by a lexical '
+                             f'constructor before the generic call={ok}')
+        if ok:
+            res.ok()
+        else:
+            res.fail(finding('R20.4', d, generic[0], f'{cls_name}(text) is not the lexical mapping',
+                             f'`{stmt_text(generic[0])[:40]}` is reached with a prototype of class '
+                             f'{cls_name}: {cls_name}("false") is True, so every xs:boolean '
+                             f'element or attribute with text false/0 has the typed value true '
+                             f'under a schema (data(<b>false</b>) = true)'))
+    if not non_lexical:
+        res.ok()
+    counts['non_lexical_prototype_classes'] = n
+    return res
+
+
+def r20_5(ctx, counts) -> RuleResult:
+    """derived types decode as their nearest builtin base, not as the primitive root"""
+    from ..engine.srcmodel import walk_local
+    model: Model = ctx.model
+    res = RuleResult(
+        'R20.5', 'NEAREST-BUILTIN-BASE',
+        'The typed value of a node whose type is derived from a builtin (a restriction of '
+        'xs:integer, a list of xs:integer, a restriction of xs:token) is an instance of that '
+        'builtin: `data(<m>5</m>) instance of xs:integer`. `xsd_type.root_type` is the PRIMITIVE '
+        'ancestor (xs:decimal for every integer type, xs:string for every string type), so a '
+        'prototype looked up by root_type alone loses the derived builtin. In '
+        'decoder.iter_atomic_values every lookup through `root_type` is a fallback: the function '
+        'also walks the derivation chain (`base_type`, and `item_type` for lists) and the '
+        'root_type lookup sits in an else/after-failure position.')
+    mod = model.module('elementpath.decoder')
+    f = mod.toplevel_function('iter_atomic_values')
+    if f is None:
+        raise AnalysisError('decoder.iter_atomic_values vanished')
+    nodes = list(ast.walk(f.node))
+    roots = [x for x in nodes if isinstance(x, ast.Attribute) and x.attr == 'root_type']
+    walks_base = any((isinstance(x, ast.Attribute) and x.attr == 'base_type') or
+                     (isinstance(x, ast.Constant) and x.value == 'base_type') for x in nodes)
+    walks_items = any((isinstance(x, ast.Attribute) and x.attr == 'item_type') or
+                      (isinstance(x, ast.Constant) and x.value == 'item_type') for x in nodes)
+    if not roots:
+        res.instances.append(f'{f.key}: no root_type lookup')
+        res.ok()
+    # names bound from the derivation walk: x = _helper(…) where the helper reads base_type,
+    # or x = getattr(…, 'item_type'/'base_type', …) / ….base_type
+    helpers = {g.name for g in mod.functions.values() if g.parent is f and any(
+        (isinstance(x, ast.Constant) and x.value == 'base_type') or
+        (isinstance(x, ast.Attribute) and x.attr == 'base_type') for x in ast.walk(g.node))}
+    walk_names: set[str] = set()
+    for st in walk_local(f.node):
+        if isinstance(st, (ast.Assign, ast.AnnAssign)) and getattr(st, 'value', None) is not None:
+            v = st.value
+            derived = any(isinstance(c, ast.Call) and dotted(c.func) in helpers for c in ast.walk(v)) \
+                or any(isinstance(c, ast.Constant) and c.value in ('base_type', 'item_type')
+                       for c in ast.walk(v)) \
+                or any(isinstance(c, ast.Attribute) and c.attr in ('base_type', 'item_type')
+                       for c in ast.walk(v))
+            if derived:
+                tg = st.targets[0] if isinstance(st, ast.Assign) else st.target
+                if isinstance(tg, ast.Name):
+                    walk_names.add(tg.id)
+    from .common import enclosing_map
+    emap = enclosing_map(f.node)
+    for r in roots:
+        if any(any(y is r for y in ast.walk(g.node)) for g in mod.functions.values()
+               if g.parent is f):
+            continue        # inside a nested helper (the member-type walk)
+        fallback = False
+        for enc in emap.get(id(r), []):
+            if isinstance(enc, ast.If) and any(any(y is r for y in ast.walk(st)) for st in enc.orelse) \
+                    and any(isinstance(x, ast.Name) and x.id in walk_names for x in ast.walk(enc.test)):
+                fallback = True
+        res.instances.append(f'{f.key}: root_type lookup at L{r.lineno}: fallback after the '
+                             f'derivation walk ({sorted(walk_names)})={fallback}; list item type '
+                             f'used={walks_items}')
+        if fallback and walks_base and walks_items:
+            res.ok()
+        else:
+            res.fail(Finding('R20.5', mod.relpath, f.qualname, 'prototype by root_type only',
+                             f'{f.name} finds the prototype of a derived type through '
+                             f'`root_type` (the primitive ancestor) without walking `base_type`'
+                             f'{"" if walks_items else " / `item_type`"}: a restriction of '
+                             f'xs:integer and a list of xs:integer decode as xs:decimal '
+                             f'(`data(<m>5</m>) instance of xs:integer` is false)', r.lineno))
+    counts['root_type_lookups'] = len(roots)
+    return res
+
+
 def run(ctx) -> dict:
     model: Model = ctx.model
     counts: dict[str, int] = {}
@@ -251,7 +385,8 @@ def run(ctx) -> dict:
         'elementpath.decoder', 'elementpath.schema_proxy', 'elementpath.xpath_nodes',
         'elementpath.xpath_context'), 0)
     return {
-        'results': [r1, r2, r20_3(ctx, counts), _state], 'counts': counts,
+        'results': [r1, r2, r20_3(ctx, counts), r20_4(ctx, counts), r20_5(ctx, counts),
+                    _state], 'counts': counts,
         'explanation':
             'Only the table-shaped necessary condition of "the typed value is an instance of the '
             'datatype class of its declared type" is decided: the prototype table that '
